@@ -387,9 +387,14 @@ func c27ExpectFor(disk []rbDiskSession, spec *rbSpec, v *c27Victim, k int, off i
 				bmin = ex.Want[tr][n-1].End
 			}
 		}
-		if k == 0 {
+		if k == 0 && ex.Extra[0]+ex.Extra[1] == 0 {
+			// nothing of the victim is readable: the recording is exactly the closed segments before it
 			bmin = endAll
 		}
+		// (k == 0 with samples of the torn first part on disk: the server may serve them and then derives the end of the
+		// span from that part, like for k > 0 - found by the thorough tier: video frames of 200 ms, parts of 100 ms, the
+		// torn part holds one audio sample, and the span ends 143 ms before the last video frame of the previous,
+		// closed segment does. Every track is still covered up to its last complete sample.)
 		bmax := endAll
 		if endTorn.After(bmax) {
 			bmax = endTorn
